@@ -2,6 +2,7 @@
 package rules
 
 import (
+	"golang.org/x/tools/go/packages"
 	"sort"
 
 	"mosverif/core"
@@ -46,3 +47,5 @@ func Explanation(prop string) string {
 	}
 	return "structural necessary conditions of the property, decided for all paths of the current source"
 }
+
+type packagesPkg = packages.Package
